@@ -22,13 +22,17 @@ TEXT = {
          "a soundness theorem (every derivation is realised by the micro-step machine under any stack with room) and the "
          "call-by-need rules of the core calculus — literal, function reference / definition, argument reference, closure call, β — "
          "as derived rules; a memo-free call-by-name reference semantics on trees and the adequacy theorem: the evaluator (memo cells, "
-         "requestor chains, tail returns) computes exactly its values; a verified executable big-step evaluator run next to the "
+         "requestor chains, tail returns) computes exactly its values — for literals, functions, argument references, Booleans and "
+         "selection, integer ㄴ / ㄷ / ㄱ / ㅈ, list construction and list selection; a verified executable big-step evaluator and the "
+         "executable reference semantics run next to the "
          "implementation on every case. That the implementation computes what the model computes is "
          "the correspondence on generated programs.", "5 C02"),
  'C03': ("Theorems about the coroutine trees of the model: for each position the specification declares non-strict "
          "(unselected Boolean branch, operands after the deciding one of Boolean ㄱ/ㄷ, list elements, unused arguments, "
          "operands of ㄴ after a difference, the handler of a ㅅㄷ that does not raise) the tree is literally independent of "
-         "what is there, and delayed expressions are evaluated only by force nodes (C13). Implementation: every payload "
+         "what is there, and delayed expressions are evaluated only by force nodes (C13); in the call-by-name reference semantics "
+         "(adequate for the evaluator) an unselected branch, an unused argument and every unselected list element are irrelevant. "
+         "Implementation: every payload "
          "variant (throwing, ill-typed, diverging to the evaluator limit, …) must behave like a harmless literal.", "5 C03"),
  'C04': ("The model has no host-crash outcome: every built-in is a total function into the coroutine monad; theorems: every "
          "built-in failure carries marker 5 + a class code of error.py (regenerated table) + a location, ㅅㄷ / ㄱㄹ handlers "
@@ -67,7 +71,9 @@ TEXT = {
          "then the continuation on its value or the handler on its exception, the do_IO loop executes the returned action "
          "next; big-step execution rules: a ㄱㄹ action executes its first action, applies the continuation to the produced "
          "value, executes the returned action — the world threaded in exactly this order — or routes the raised exception to the "
-         "handler / propagates it. Monad laws and random bind trees are checked on all observables against a sequential oracle and the model; "
+         "handler / propagates it; the monad laws as theorems over the execution judgment (left identity for non-action payloads, right "
+         "identity for results without components, sequencing of a left-nested bind). Monad laws and random bind trees are also checked "
+         "on all observables against a sequential oracle and the model; "
          "left identity for I/O payloads is a recorded finding.", "5 C07"),
  'C11': ("Theorems: ㄷ / ㄱ on integers are the exact sum / product (fold lemmas), ㄴㄴ is truncated division and ㄴㅁ the "
          "truncated remainder (proved equal to Int.tdiv / Int.tmod), n = q·d + r with |r| < |d| and r carrying the sign of n, "
